@@ -131,12 +131,22 @@ func runC18(c *Ctx) {
 		other.Hdr.Name = "other.example."
 		c.Pred("verify", "signer-name-mismatch-rejected", in, verify(out, other) != "ok", "ok", "err", true)
 		// outside the validity window
-		for _, w := range [][2]uint32{{now + 100, now + 300}, {now - 300, now - 100}} {
+		for _, w := range [][2]uint32{{now + 100, now + 300}, {now - 300, now - 100}, {now + 0x80000100, now + 0x80000200}, {now + 300, now - 300}} {
 			s := mk(alg, key.KeyTag())
 			s.Inception, s.Expiration = w[0], w[1]
 			o2, err := s.Sign(k.signer, m.Copy())
 			if err == nil {
-				c.Pred("verify", "outside-window-rejected", in, verify(o2, key) != "ok", "ok", "err", true)
+				c.Pred("verify", "outside-window-rejected", fmt.Sprintf("window=%d..%d now=%d %s", w[0], w[1], now, in), verify(o2, key) != "ok", "ok", "err", true)
+			}
+		}
+		// inside the window, however far its ends are (plain 32-bit comparison of seconds)
+		for _, w := range [][2]uint32{{now - 300, 0xFFFFFFFF}, {0, now + 300}, {1, now + 0x7FFFFFFF + 1000}} {
+			s := mk(alg, key.KeyTag())
+			s.Inception, s.Expiration = w[0], w[1]
+			o2, err := s.Sign(k.signer, m.Copy())
+			if err == nil {
+				v3 := verify(o2, key)
+				c.Pred("verify", "inside-window-accepted", fmt.Sprintf("window=%d..%d now=%d %s", w[0], w[1], now, in), v3 == "ok", v3, "ok", true)
 			}
 		}
 		// (c) every single-bit alteration of message and SIG RDATA (small messages), truncations
